@@ -242,7 +242,7 @@ proof!(5, fn c09_robust_history_cap3() { robust_history::<3, 4>(); canaries(); }
 #[cfg(feature = "sched")]
 pub mod sched {
     use super::*;
-    use iceoryx2_pal_concurrency_sync::verif_atomic::{verif_clear_hook, verif_set_hook};
+    use iceoryx2_pal_concurrency_sync::verif_atomic::{verif_cell_points, verif_clear_hook, verif_set_hook};
 
     pub const MAXC: usize = 4;
 
@@ -410,8 +410,9 @@ pub mod sched {
     }
 
     /// outer: acquire, [release], acquire, [release] ...; inner: up to INNER complete operations
-    pub fn race<const CAP: usize, const OUTER: usize, const INNER: usize>(lock_mode: bool) {
+    pub fn race<const CAP: usize, const OUTER: usize, const INNER: usize>(lock_mode: bool, cell_points: bool) {
         let s = FixedSizeUniqueIndexSet::<CAP>::new();
+        verif_cell_points(cell_points);
         unsafe {
             SPTR = &s as *const _ as usize;
             BOOK.cap = CAP;
@@ -488,11 +489,11 @@ pub mod sched {
         }
     }
 
-    proof!(5, fn c09_s_uis_race_cap2() { race::<2, 1, 2>(false); canaries(); });
-    proof!(5, fn c09_s_uis_race_cap2_lock() { race::<2, 1, 2>(true); canaries(); });
-    proof!(7, fn c09_s_uis_race_cap3_deep() { race::<2, 2, 3>(false); canaries(); });
-    proof!(7, fn c09_s_uis_race_cap2_lock_deep() { race::<2, 2, 3>(true); canaries(); });
-    proof!(5, fn c09_s_uis_race_cap1() { race::<1, 1, 2>(false); canaries(); });
+    proof!(5, fn c09_s_uis_race_cap2() { race::<2, 1, 2>(false, false); canaries(); });
+    proof!(5, fn c09_s_uis_race_cap2_lock() { race::<2, 1, 2>(true, false); canaries(); });
+    proof!(7, fn c09_s_uis_race_cap3_deep() { race::<2, 1, 3>(false, true); canaries(); });
+    proof!(7, fn c09_s_uis_race_cap2_lock_deep() { race::<2, 1, 3>(true, true); canaries(); });
+    proof!(5, fn c09_s_uis_race_cap1() { race::<1, 1, 2>(false, false); canaries(); });
 
     // ---- robust index set: recovery of a dead owner racing with another recoverer and a live owner
 
